@@ -349,6 +349,8 @@ def run(ctx):
 
     # ------------------------------------------------------------------ C12-deterministic
     ctx.rule("C12-deterministic", "hash-iteration order reaches only order-insensitive sinks")
+    # decided on the import sets themselves: the same bindings under all six iteration orders of a three-export library
+    importtables.rule_order_independent(ctx, "C12-deterministic")
     HASH_ITER = ("std::collections::HashMap::iter", "std::collections::HashMap::keys", "std::collections::HashMap::values",
                  "std::collections::HashMap::drain", "std::collections::HashMap::into_keys", "std::collections::HashMap::into_values",
                  "<std::collections::HashMap as std::iter::IntoIterator>::into_iter",
